@@ -29,7 +29,7 @@ func init() {
 	drivers["claims-scribble"] = func(a *Args) {
 		d := loadDomains(a.In)
 		t := NewTracer(a.Out)
-		cc := Conc{a.Rand()}
+		cc := Conc{r: a.Rand()}
 		b := 0
 		do := func(via string, buf []byte, dec func([]byte) (psatoken.IClaims, error)) {
 			c, err := dec(buf)
